@@ -9,21 +9,16 @@
    codec and sorted()/heapq oracle (no hypothesis on them), every capacity,
    policy, history of operations and fault position.
 
-   Level: partial.  What is proved here is the resource discipline (b):
-   "after any history, with or without a fault, close() until it returns
-   normally leaves no file, no descriptor and no open handle, and it returns
-   normally within three calls".  NOT proved in Coq (checked on /repo by the
-   oracle of harness/props/C18.py at every fault position of small workloads,
-   and by the model-vs-/repo correspondence of the same runs):
-     (a) the injected fault surfaces as OSError from the operation in
-         progress (except ENOENT in os.remove during close);
-     (b') two calls of close() suffice (the proof below gives three: it does
-         not use that a registered descriptor is always still open);
-     (c) if MafWriter.close returns normally the output holds every record.
-   Full statement kept for reference:
-     forall workload fault, let (outcome, world) := run workload fault in
-       (fault_hit -> surfaced outcome) /\ clean (close_until_ok world) /\ closes <= 2
-       /\ (writer_close_ok -> every written record is in the output). *)
+   First round (below): the resource discipline (b) - after any history,
+   with or without a fault, close() until it returns normally leaves no file,
+   no descriptor and no open handle.  Second round (end of the file): (a) the
+   fault surfaces from the operation in progress, (d) two calls of close()
+   suffice, (c) a MafWriter.close that returns normally has written every
+   record; plus a refutation of "exactly once" for a close() that succeeds on
+   retry.  What stays outside the model is listed in LEVEL_NOTE of
+   harness/props/C18.py (kernel, half-written files of a tainted sorter, GC
+   other than reference counting, more than one fault, the writer's own
+   output handle). *)
 From MafVerif Require Import lib.Base model.Sorter model.SorterWorld proofs.SorterWorldFacts.
 
 Section C18.
@@ -121,3 +116,154 @@ Proof. vm_compute. reflexivity. Qed.
 Example demo_descriptor_zero_closed :
   let '(e, s, w) := w_close Z (Z * Z) (snd (fst one_spill)) (snd one_spill) in (e, fds _ w, length (files _ w)) = (None, [], 0%nat).
 Proof. vm_compute. reflexivity. Qed.
+
+(* ======================================================================
+   Second round: the clauses that were left to the oracle are now theorems.
+   ====================================================================== *)
+From Coq Require Import Permutation.
+From MafVerif Require Import lib.SorterLib proofs.SorterFacts proofs.SorterWorldFaults proofs.SorterWorldData.
+
+Section C18_faults.
+  Variables A K D : Type.
+  Variable keyf : A -> res K.
+  Variable lt : K -> K -> bool.
+  Variable enc : A -> D.
+  Variable dec : D -> res A.
+  Variable pick_min : forall X : Type, (X -> X -> bool) -> list X -> option (X * list X).
+
+  (* (a) Sorter: in every state reachable by any history of add / iterate-k-
+     then-abandon / close from a fresh sorter, under any fault schedule: the
+     operation during which the scheduled call fails (the schedule is pending
+     before it and consumed after it) raises OSError with the scheduled errno -
+     whether the operation is an add, an iteration or a close - with the one
+     exception the code documents: ENOENT from os.remove inside close(), after
+     which close() returns normally. *)
+  Theorem C18_fault_surfaces :
+    forall (c : nat) (al : bool) (f : option (nat * bool)) (s : wsorter K D) (w : world D)
+           (o : op A) out ys s' w' (eno : bool),
+      reachable A K D keyf lt enc dec pick_min c al f s w ->
+      w_step A K D keyf lt enc dec pick_min s o w = (out, ys, s', w') ->
+      fires D w w' eno ->
+      out = ORaise (OSError eno) \/
+      (eno = true /\ o = OpClose A /\ hit D w' = Some COsRemove /\ out = OOk).
+  Proof.
+    intros c al f s w o out ys s' w' eno R.
+    exact (step_surfaces A K D keyf lt enc dec pick_min s o w out ys s' w' eno
+             (reachable_WI2 A K D keyf lt enc dec pick_min c al f s w R)).
+  Qed.
+
+  (* nothing but the injected fault makes close() fail: without a pending
+     fault, close() of any reachable sorter returns normally *)
+  Theorem C18_close_fails_only_by_fault :
+    forall (c : nat) (al : bool) (f : option (nat * bool)) (s : wsorter K D) (w : world D) e s' w',
+      reachable A K D keyf lt enc dec pick_min c al f s w ->
+      fault D w = None -> w_close K D s w = (e, s', w') -> e = None.
+  Proof.
+    intros c al f s w e s' w' R.
+    exact (close_without_fault K D s w e s' w' (reachable_WI2 A K D keyf lt enc dec pick_min c al f s w R)).
+  Qed.
+
+  (* (d) close() until it returns normally: two calls suffice, for every
+     workload and fault position (with C18_no_leak_partial: and then nothing
+     is left) *)
+  Theorem C18_two_closes_suffice :
+    forall (c : nat) (al stop : bool) (ops : list (op A)) (f : option (nat * bool)) obs cl w',
+      w_workload A K D keyf lt enc dec pick_min c al stop ops f = (obs, cl, w') ->
+      (length cl <= 2)%nat.
+  Proof. exact (two_closes A K D keyf lt enc dec pick_min). Qed.
+
+  (* (a) MafWriter with a sorter: `writer += record` and writer.close() report
+     the fault, in every state reachable by any sequence of writes and closes *)
+  Theorem C18_writer_add_fault_surfaces :
+    forall (wr : wwriter A K D) x (w : world D) o wr' w' (eno : bool),
+      wr_add A K D keyf lt enc pick_min wr x w = (o, wr', w') -> fires D w w' eno ->
+      o = ORaise (OSError eno).
+  Proof. exact (wr_add_surfaces A K D keyf lt enc pick_min). Qed.
+
+  Theorem C18_writer_close_fault_surfaces :
+    forall (c : nat) (f : option (nat * bool)) (wr : wwriter A K D) (w : world D) o wr' w' (eno : bool),
+      wr_reachable A K D keyf lt enc dec pick_min c f wr w ->
+      wr_close A K D keyf lt dec pick_min wr w = (o, wr', w') -> fires D w w' eno ->
+      o = ORaise (OSError eno) \/ (eno = true /\ hit D w' = Some COsRemove /\ o = OOk).
+  Proof.
+    intros c f wr w o wr' w' eno R.
+    exact (wr_close_surfaces A K D keyf lt dec pick_min wr w o wr' w' eno
+             (wr_reachable_WI2 A K D keyf lt enc dec pick_min c f wr w R)).
+  Qed.
+End C18_faults.
+Print Assumptions C18_fault_surfaces.
+Print Assumptions C18_close_fails_only_by_fault.
+Print Assumptions C18_two_closes_suffice.
+Print Assumptions C18_writer_add_fault_surfaces.
+Print Assumptions C18_writer_close_fault_surfaces.
+
+Section C18_writer_data.
+  Variables A K D : Type.
+  Variable keyf : A -> res K.
+  Variable lt : K -> K -> bool.
+  Variable enc : A -> D.
+  Variable dec : D -> res A.
+  Variable pick_min : forall X : Type, (X -> X -> bool) -> list X -> option (X * list X).
+  (* the hypotheses of C07 *)
+  Hypothesis lt_swo : swo K lt.
+  Hypothesis pick_ok : pick_contract pick_min.
+  Hypothesis codec_ok : codec_contract A K D keyf lt enc dec.
+
+  (* (c) for every capacity, every list of records and every fault schedule:
+     write the records (`oks xs ao` = those whose `writer += record` returned
+     normally), then call close() any number of times; whenever a call returns
+     normally - the first one, or one after any number of failed ones - the
+     output contains the rendering of every record written.  (After a failed
+     spill the sorter is tainted and close() is not modelled further: the
+     model never reports OOk there.  On /repo such a writer keeps raising, or
+     - when it re-reads its records leniently - may get through on retry; those
+     runs are judged on the real library by the oracle of the plugin only.) *)
+  Theorem C18_writer_output_complete :
+    forall (c : nat) (f : option (nat * bool)) (xs : list A) ao wr w wra wa wr' w',
+      wr_adds A K D keyf lt enc pick_min (wr_new A K D c) xs (world0 D f) = (ao, wr, w) ->
+      closes A K D keyf lt dec pick_min wr w wra wa ->
+      wr_close A K D keyf lt dec pick_min wra wa = (OOk, wr', w') ->
+      incl (map enc (oks A xs ao)) (map enc (wout A K D wr')).
+  Proof. exact (writer_complete A K D keyf lt enc dec pick_min lt_swo pick_ok codec_ok). Qed.
+
+  (* when every write and the first close() return normally the output is
+     exactly the records written: a permutation of their renderings, each
+     record being the decoding of its own text *)
+  Theorem C18_writer_output_exact_when_first_close_succeeds :
+    forall (c : nat) (f : option (nat * bool)) (xs : list A) ao wr w wr' w',
+      wr_adds A K D keyf lt enc pick_min (wr_new A K D c) xs (world0 D f) = (ao, wr, w) ->
+      Forall (fun o => o = OOk) ao ->
+      wr_close A K D keyf lt dec pick_min wr w = (OOk, wr', w') ->
+      Permutation (map enc (wout A K D wr')) (map enc xs) /\
+      Forall (fun y => dec (enc y) = Ok y) (wout A K D wr').
+  Proof. exact (writer_complete_first A K D keyf lt enc dec pick_min lt_swo pick_ok codec_ok). Qed.
+End C18_writer_data.
+Print Assumptions C18_writer_output_complete.
+Print Assumptions C18_writer_output_exact_when_first_close_succeeds.
+
+(* "as a permutation" cannot be claimed for a close() that succeeds only on
+   retry: 5 records, capacity 2, os.remove of the first spill file failing
+   with EIO (call 39).  The first close() has written all five records when
+   it raises; the second merges the file that is still registered once more
+   and returns normally: seven lines for five records.  Replayed on /repo by
+   the corpus case of harness/props/C18.py (writer, fault [39, 0]). *)
+Definition retry_recs : list (Z * Z) := [(3, 0); (1, 1); (2, 2); (5, 3); (4, 4)].
+Definition retry_run :=
+  wr_workload (Z * Z) Z (Z * Z) zkey Z.ltb zenc zdec leftmost_min 2 retry_recs (Some (39%nat, false)).
+Example retry_adds : fst (fst (fst retry_run)) = [OOk; OOk; OOk; OOk; OOk].
+Proof. vm_compute. reflexivity. Qed.
+Example retry_closes : snd (fst (fst retry_run)) = [ORaise (OSError false); OOk].
+Proof. vm_compute. reflexivity. Qed.
+Example retry_output_lines : length (wout _ _ _ (snd (fst retry_run))) = 7%nat.
+Proof. vm_compute. reflexivity. Qed.
+(* witness: capacity 2, retry_recs, fault (39, EIO) = retry_run *)
+Theorem C18_writer_retry_duplicates_refuted :
+  Forall (fun o => o = OOk) (fst (fst (fst retry_run))) /\
+  snd (fst (fst retry_run)) = [ORaise (OSError false); OOk] /\
+  ~ Permutation (map zenc (wout _ _ _ (snd (fst retry_run)))) (map zenc retry_recs).
+Proof.
+  rewrite retry_adds, retry_closes. split; [repeat constructor |]. split; [reflexivity |].
+  intros P. apply Permutation_length in P. rewrite !map_length, retry_output_lines in P.
+  unfold retry_recs in P. simpl in P. discriminate.
+Qed.
+Print Assumptions C18_writer_retry_duplicates_refuted.
